@@ -161,6 +161,8 @@ def execute(prog):
                 if mc.plen == 1 and enc == "compressed":
                     enc = "uncompressed"    # collides with raw on 1-byte fields
                 cont = it["container"]
+                if cont in ("der", "pem") and not libx.fmt_ok(toy, cont):
+                    cont = "bare"
                 if cont in ("der", "pem") and enc == "raw":
                     enc = "uncompressed"
                 pt_bytes = ec.encode_point(mc, P, enc)
@@ -228,10 +230,10 @@ def execute(prog):
                                 nb = ec.encode_point(mc, Pb, enc)
                         else:
                             nb = _enc_any(mc, x, 0, enc if enc != "compressed" else "uncompressed")
-                    elif b == "raw_in_der":
+                    elif b == "raw_in_der" and libx.fmt_ok(toy, "der"):
                         nb = ec.encode_point(mc, P, "raw")
                         cont = rnd.choice(["der", "pem"])
-                    elif b == "wrong_oid":
+                    elif b == "wrong_oid" and libx.fmt_ok(toy, "der"):
                         oid = rnd.choice([(1, 2, 3, 4), (1, 3, 132, 0, 99),
                                           tuple(mc.oid[:-1]) + (mc.oid[-1] + 1,),
                                           tuple(mc.oid) + (1,),
